@@ -2,7 +2,7 @@
    Model of hexasm's encoder: AsmLayout.v (num_nibbles, enc_size, emit_instr).  Decoder = the ISA's own operand rule
    (AsmSpec.decode, proved to be what Isa.step does in AsmSpecProofs.decode_exec). *)
 From Coq Require Import ZArith List Lia.
-From HexVerif Require Import WMap Isa AsmModel AsmLayout AsmSpec AsmSpecProofs AsmEncodeProofs.
+From HexVerif Require Import WMap Isa AsmModel AsmLayout AsmSpec AsmSpecProofs AsmEncodeProofs AsmLiteralProofs.
 Import ListNotations.
 Local Open Scope Z_scope.
 
@@ -74,6 +74,30 @@ Proof.
     try (apply Z.mod_mod; lia).
 Qed.
 Print Assumptions C04_literal.
+
+(* from the source text to that value: every decimal spelling (leading zeros included) of u in [0, 2^32) is read by the
+   lexer model as u (strtoul, then the store into `unsigned`), and a run of digits ended by any non-digit becomes one
+   NUMBER token carrying that value *)
+Theorem C04_literal_value : forall ds u, Forall is_digit ds -> horner ds 0 = u -> 0 <= u < W32 -> number_value ds = u.
+Proof. exact number_value_32. Qed.
+Print Assumptions C04_literal_value.
+
+Theorem C04_literal_token : forall ds acc c s b rest',
+  digit_byte c -> Forall digit_byte ds -> AsmModel.is_digit (char_of_byte b) = false ->
+  exists toks s', lex_go (ds ++ b :: rest') c (MNum acc) s
+                  = mk_lexed TNUMBER (set_val s' (number_value (acc ++ c :: ds))) :: toks.
+Proof. exact lex_number_run. Qed.
+Print Assumptions C04_literal_token.
+
+(* whole sources through the assembler model (lexer, parser, layout, emission): "LDAC -2147483648", "LDAC 4294967295",
+   "LDAC 2147483648" (the unsigned spelling of INT_MIN), "LDAC 007" *)
+Definition img_of (src : list Z) : option (list Z) := match AsmLayout.assemble src with AsmModel.Ok o => Some (ao_image o) | _ => None end.
+Example C04_literal_sources :
+  img_of [76;68;65;67;32;45;50;49;52;55;52;56;51;54;52;56;10] = Some [248; 224; 224; 224; 224; 224; 224; 48] /\
+  img_of [76;68;65;67;32;52;50;57;52;57;54;55;50;57;53;10] = Some [255; 63; 0; 0] /\
+  img_of [76;68;65;67;32;50;49;52;55;52;56;51;54;52;56;10] = Some [248; 224; 224; 224; 224; 224; 224; 48] /\
+  img_of [76;68;65;67;32;48;48;55;10] = Some [55; 0; 0; 0].
+Proof. vm_compute. repeat split; reflexivity. Qed.
 
 (* non-vacuity and the boundary values the property names *)
 Example C04_int_min : emit_instr 3 (-2147483648) (enc_size (-2147483648)) = [248; 224; 224; 224; 224; 224; 224; 48]
